@@ -23,7 +23,7 @@ LEVEL = "exploration"
 
 CONT = ["x", "{{t|a}}", "[[l|m]]", "'''b'''", "''i''", '<span class="c">s</span>', "a!b", "x y", "{{lc:X}}", "{{#if:x|y}}", "x=1", "{{t|k=v}}", "{{#if:x|a!!b}}", "{{{p|c!!d}}}",
         "[[l]] | m", "<b>n</b> | o"]
-ATTRS = [{}, {"class": "c"}, {"style": "s-1", "id": "i2"}, {"class": "a b"}]
+ATTRS = [{}, {"class": "c"}, {"style": "s-1", "id": "i2"}, {"class": "a b"}, {"Title": "T", "data-ID": "x9"}]   # last: names are kept as written
 HTML_SKIP = {"pre", "nowiki", "section", "noinclude", "includeonly", "onlyinclude", "math", "chem", "ce", "hiero", "score",
              "syntaxhighlight", "source", "templatestyles", "timeline", "gallery", "imagemap", "inputbox", "poem"}
 URLS = ["http://x.y/a.", "https://x.y/?q=1&r=2,", "//x.y/p!", "ftp://x.y/a?", "http://x.y/a_(b)", "mailto:a@b.org", "http://x.y/a;b"]
@@ -438,10 +438,10 @@ def main(run):
     q = run.tier == "quick"
     cov = {
         "distinct_nontrivial": len(run.acc.sets.get("inputs", ())),
-        "rule": "tables: rows x columns in 1..%d, newline / inline (|| !!) separators, 4 caption forms, 3 table x 2 row x 4 cell attribute "
+        "rule": "tables: rows x columns in 1..%d, newline / inline (|| !!) separators, 4 caption forms, 3 table x 2 row x 5 cell attribute "
                 "maps, 3 header patterns, affine content assignments cell(i,j)=K[(a+b*i+c*j) mod 16] over 16 contents (text, template, two colon-form parser functions, text and a template argument with '=', "
                 "piped link, bold, italic, inline HTML, text with '!', two words); the full product of contents for 2x2 grids; every "
-                "paired and void tag of the allowed-HTML table (special-purpose tags excluded) x 4 attribute maps x 2 quote styles x 6 "
+                "paired and void tag of the allowed-HTML table (special-purpose tags excluded) x 5 attribute maps (one with mixed-case names) x 2 quote styles x 6 "
                 "contents; every ordered pair (outer, inner) of those tags where the declared parents/content data permit the nesting, "
                 "written <outer>p<inner>r</inner>q</outer> with and without an attribute map on the inner element; template / parser-function / parameter / link calls with every argument list of length <= 3 over %d atoms "
                 "and external links. distinct = distinct generated inputs." % (3 if q else 4, len(ARG_ATOMS)),
